@@ -34,6 +34,8 @@ func init() {
 // dataPathRoot reports whether a traced root denotes one of the two data files.
 func dataPathRoot(r origin.Root) (string, bool) {
 	switch {
+	case r.Kind == "stop":
+		return r.Name, true
 	case r.Kind == "call" && r.Name == "(*"+cfgType+").GetPersonalDatabasePath":
 		return "notebook", true
 	case r.Kind == "field" && r.Name == cfgType+".PersonalDBPath":
@@ -49,6 +51,23 @@ func dataPathRoot(r origin.Root) (string, bool) {
 func pathTracer(c *Ctx) *origin.Tracer {
 	return &origin.Tracer{
 		CG: c.P.CallGraph(),
+		// a path kept in a field of some other object (a notebook or writer
+		// object) is followed to what was stored there; the two data-path
+		// fields themselves are where the walk ends
+		FieldStoresIn: shippedFuncs(c),
+		StopAt: func(v ssa.Value) (string, bool) {
+			if u, ok := v.(*ssa.UnOp); ok {
+				if fa, ok := u.X.(*ssa.FieldAddr); ok {
+					switch ssau.FieldOwner(fa) + "." + ssau.FieldName(fa) {
+					case cfgType + ".PersonalDBPath":
+						return "notebook", true
+					case histType + ".FilePath":
+						return "history", true
+					}
+				}
+			}
+			return "", false
+		},
 		Through: func(call *ssa.Call, idx int) []ssa.Value {
 			switch ssau.CallName(call) {
 			case "path/filepath.Clean", "path/filepath.FromSlash", "path/filepath.ToSlash", "path.Clean", "strings.TrimSpace":
@@ -296,6 +315,14 @@ func runC09(c *Ctx) {
 		}
 		calls := callsTo(run, ssau.FuncName(save))
 		if len(calls) == 0 {
+			// through a helper whose error is the save's own error
+			ssau.ForEachInstr(run, false, func(in ssa.Instruction) {
+				if call, ok := in.(*ssa.Call); ok && c09DelegatesError(c, call.Common().StaticCallee(), save, 0) {
+					calls = append(calls, call)
+				}
+			})
+		}
+		if len(calls) == 0 {
 			r.Bad("O-3", "cli."+cv+"#save-call", c.P.Pos(run.Pos()), "the command does not call saveToPersonalDatabase")
 			continue
 		}
@@ -510,4 +537,39 @@ func c09Protocol(c *Ctx, fn *ssa.Function, ren *ssa.Call) {
 		r.Check(bad == "", "O-2", fk+"#success-only-after-rename", pos, "every nil return lies behind a successful Rename", bad)
 	}
 	_ = token.NoPos
+}
+
+// c09DelegatesError: g is a repository function every return of which hands
+// back, as its error, the error of its own call of target (or of another such
+// delegate): g fails exactly when target does.
+func c09DelegatesError(c *Ctx, g, target *ssa.Function, d int) bool {
+	if g == nil || g.Blocks == nil || !c.P.IsRepoFunc(g) || d > 2 {
+		return false
+	}
+	ei := errorIndex(g)
+	if ei < 0 {
+		return false
+	}
+	rets := ssau.ReturnsOf(g)
+	if len(rets) == 0 {
+		return false
+	}
+	for _, ret := range rets {
+		v := ssau.ResultValue(ret, ei)
+		var call *ssa.Call
+		switch x := v.(type) {
+		case *ssa.Call:
+			call = x
+		case *ssa.Extract:
+			call, _ = x.Tuple.(*ssa.Call)
+		}
+		if call == nil || errValue(call) != v {
+			return false
+		}
+		cal := call.Common().StaticCallee()
+		if cal != target && !c09DelegatesError(c, cal, target, d+1) {
+			return false
+		}
+	}
+	return true
 }
